@@ -1,4 +1,5 @@
-(* Aoef/Schema.v — GENERATED by harness/aoef.py (gen_schema_v) from the schema table there; do not edit.
+(* Aoef/Schema.v — GENERATED on every run by harness/aoef.py (gen_schema_v) from the schema table there and from the
+   extraction of /repo/src/soundevent/io/aoef/*.py by harness/aoef_extract.py (masks, steps, load orders); do not edit.
    One row per adapter: scalar fields written / read, reference fields (target class, cardinality) in the
    evaluation order of assemble_aoef; one row per collection adapter: conversion / snapshot steps in evaluation
    order and the re-registration order of to_soundevent (inline pseudo-tables placed after users and tags). *)
@@ -161,13 +162,13 @@ Definition cur_kidcard (c : cls) :=
 
 Definition current : schema := Schema cur_wr cur_rd cur_kidcls cur_kidcard.
 
-Definition root_RecordingSet : root_desc := Root cRecordingSet [Conv 0; Snap cRecording; Snap cUser; Snap cTag; Snap cNote; Snap cPredictedTag; Snap cStatusBadge] [cTag; cUser; cNote; cPredictedTag; cStatusBadge; cRecording].
-Definition root_Dataset : root_desc := Root cDataset [Conv 0; Snap cRecording; Snap cUser; Snap cTag; Snap cNote; Snap cPredictedTag; Snap cStatusBadge] [cTag; cUser; cNote; cPredictedTag; cStatusBadge; cRecording].
-Definition root_AnnotationSet : root_desc := Root cAnnotationSet [Conv 0; Snap cClipAnnotation; Snap cUser; Snap cTag; Snap cRecording; Snap cClip; Snap cSoundEvent; Snap cSoundEventAnnotation; Snap cSequence; Snap cSequenceAnnotation; Snap cNote; Snap cPredictedTag; Snap cStatusBadge] [cUser; cTag; cNote; cPredictedTag; cStatusBadge; cRecording; cClip; cSoundEvent; cSequence; cSoundEventAnnotation; cSequenceAnnotation; cClipAnnotation].
-Definition root_AnnotationProject : root_desc := Root cAnnotationProject [Conv 0; Snap cAnnotationTask; Conv 1; Conv 2; Snap cClipAnnotation; Snap cUser; Snap cTag; Snap cRecording; Snap cSoundEvent; Snap cSequence; Snap cClip; Snap cSoundEventAnnotation; Snap cSequenceAnnotation; Snap cNote; Snap cPredictedTag; Snap cStatusBadge] [cUser; cTag; cNote; cPredictedTag; cStatusBadge; cRecording; cClip; cSoundEvent; cSequence; cSoundEventAnnotation; cSequenceAnnotation; cClipAnnotation; cAnnotationTask].
-Definition root_EvaluationSet : root_desc := Root cEvaluationSet [Conv 0; Snap cClipAnnotation; Conv 1; Snap cUser; Snap cTag; Snap cRecording; Snap cSoundEvent; Snap cSequence; Snap cClip; Snap cSoundEventAnnotation; Snap cSequenceAnnotation; Snap cNote; Snap cPredictedTag; Snap cStatusBadge] [cUser; cTag; cNote; cPredictedTag; cStatusBadge; cRecording; cClip; cSoundEvent; cSequence; cSoundEventAnnotation; cSequenceAnnotation; cClipAnnotation].
-Definition root_PredictionSet : root_desc := Root cPredictionSet [Conv 0; Snap cClipPrediction; Snap cUser; Snap cTag; Snap cRecording; Snap cClip; Snap cSoundEvent; Snap cSequence; Snap cSoundEventPrediction; Snap cSequencePrediction; Snap cNote; Snap cPredictedTag; Snap cStatusBadge] [cTag; cUser; cNote; cPredictedTag; cStatusBadge; cRecording; cSoundEvent; cSequence; cClip; cSoundEventPrediction; cSequencePrediction; cClipPrediction].
-Definition root_ModelRun : root_desc := Root cModelRun [Conv 0; Snap cClipPrediction; Snap cUser; Snap cTag; Snap cRecording; Snap cSoundEvent; Snap cSequence; Snap cClip; Snap cSoundEventPrediction; Snap cSequencePrediction; Snap cNote; Snap cPredictedTag; Snap cStatusBadge] [cTag; cUser; cNote; cPredictedTag; cStatusBadge; cRecording; cSoundEvent; cSequence; cClip; cSoundEventPrediction; cSequencePrediction; cClipPrediction].
-Definition root_Evaluation : root_desc := Root cEvaluation [Conv 0; Snap cUser; Snap cTag; Snap cRecording; Snap cSoundEvent; Snap cSequence; Snap cClip; Snap cSoundEventAnnotation; Snap cSequenceAnnotation; Snap cClipAnnotation; Snap cSoundEventPrediction; Snap cSequencePrediction; Snap cClipPrediction; Snap cClipEvaluation; Snap cMatch; Snap cNote; Snap cPredictedTag; Snap cStatusBadge] [cUser; cTag; cNote; cPredictedTag; cStatusBadge; cRecording; cSoundEvent; cSequence; cClip; cSoundEventAnnotation; cSequenceAnnotation; cClipAnnotation; cSoundEventPrediction; cSequencePrediction; cClipPrediction; cMatch; cClipEvaluation].
+Definition root_RecordingSet : root_desc := Root cRecordingSet [Conv 0; Snap cRecording; Snap cTag; Snap cUser; Snap cNote; Snap cPredictedTag; Snap cStatusBadge] [cTag; cUser; cNote; cPredictedTag; cStatusBadge; cRecording].
+Definition root_Dataset : root_desc := Root cDataset [Conv 0; Snap cRecording; Snap cTag; Snap cUser; Snap cNote; Snap cPredictedTag; Snap cStatusBadge] [cTag; cUser; cNote; cPredictedTag; cStatusBadge; cRecording].
+Definition root_AnnotationSet : root_desc := Root cAnnotationSet [Conv 0; Snap cClipAnnotation; Snap cClip; Snap cRecording; Snap cSequenceAnnotation; Snap cSequence; Snap cSoundEventAnnotation; Snap cSoundEvent; Snap cTag; Snap cUser; Snap cNote; Snap cPredictedTag; Snap cStatusBadge] [cUser; cTag; cNote; cPredictedTag; cStatusBadge; cRecording; cClip; cSoundEvent; cSequence; cSoundEventAnnotation; cSequenceAnnotation; cClipAnnotation].
+Definition root_AnnotationProject : root_desc := Root cAnnotationProject [Conv 0; Snap cAnnotationTask; Conv 1; Conv 2; Snap cClipAnnotation; Snap cClip; Snap cRecording; Snap cSequenceAnnotation; Snap cSequence; Snap cSoundEventAnnotation; Snap cSoundEvent; Snap cTag; Snap cUser; Snap cNote; Snap cPredictedTag; Snap cStatusBadge] [cUser; cTag; cNote; cPredictedTag; cStatusBadge; cRecording; cClip; cSoundEvent; cSequence; cSoundEventAnnotation; cSequenceAnnotation; cClipAnnotation; cAnnotationTask].
+Definition root_EvaluationSet : root_desc := Root cEvaluationSet [Conv 0; Snap cClipAnnotation; Conv 1; Snap cClip; Snap cRecording; Snap cSequenceAnnotation; Snap cSequence; Snap cSoundEventAnnotation; Snap cSoundEvent; Snap cTag; Snap cUser; Snap cNote; Snap cPredictedTag; Snap cStatusBadge] [cUser; cTag; cNote; cPredictedTag; cStatusBadge; cRecording; cClip; cSoundEvent; cSequence; cSoundEventAnnotation; cSequenceAnnotation; cClipAnnotation].
+Definition root_PredictionSet : root_desc := Root cPredictionSet [Conv 0; Snap cClipPrediction; Snap cClip; Snap cRecording; Snap cSequencePrediction; Snap cSequence; Snap cSoundEventPrediction; Snap cSoundEvent; Snap cTag; Snap cUser; Snap cNote; Snap cPredictedTag; Snap cStatusBadge] [cTag; cUser; cNote; cPredictedTag; cStatusBadge; cRecording; cSoundEvent; cSequence; cClip; cSoundEventPrediction; cSequencePrediction; cClipPrediction].
+Definition root_ModelRun : root_desc := Root cModelRun [Conv 0; Snap cClipPrediction; Snap cClip; Snap cRecording; Snap cSequencePrediction; Snap cSequence; Snap cSoundEventPrediction; Snap cSoundEvent; Snap cTag; Snap cUser; Snap cNote; Snap cPredictedTag; Snap cStatusBadge] [cTag; cUser; cNote; cPredictedTag; cStatusBadge; cRecording; cSoundEvent; cSequence; cClip; cSoundEventPrediction; cSequencePrediction; cClipPrediction].
+Definition root_Evaluation : root_desc := Root cEvaluation [Conv 0; Snap cClipAnnotation; Snap cClipEvaluation; Snap cClipPrediction; Snap cClip; Snap cMatch; Snap cRecording; Snap cSequenceAnnotation; Snap cSequencePrediction; Snap cSequence; Snap cSoundEventAnnotation; Snap cSoundEventPrediction; Snap cSoundEvent; Snap cTag; Snap cUser; Snap cNote; Snap cPredictedTag; Snap cStatusBadge] [cUser; cTag; cNote; cPredictedTag; cStatusBadge; cRecording; cSoundEvent; cSequence; cClip; cSoundEventAnnotation; cSequenceAnnotation; cClipAnnotation; cSoundEventPrediction; cSequencePrediction; cClipPrediction; cMatch; cClipEvaluation].
 
 Definition roots : list root_desc := [root_RecordingSet; root_Dataset; root_AnnotationSet; root_AnnotationProject; root_EvaluationSet; root_PredictionSet; root_ModelRun; root_Evaluation].
